@@ -97,7 +97,8 @@ def main():
             os.makedirs(dst, exist_ok=True)
             for f in os.listdir(d):
                 if f in ('patch.diff', 'demo.py', 'demo.sh') or f.endswith('.c') or f.endswith('.h'):
-                    shutil.copy(os.path.join(d, f), dst)
+                    if os.path.abspath(d) != os.path.abspath(dst):
+                        shutil.copy(os.path.join(d, f), dst)
             meta['verified'] = res
             with open(os.path.join(dst, 'meta.json'), 'w') as f:
                 json.dump(meta, f, indent=1)
